@@ -128,6 +128,55 @@ def eval_subst(args):
     return dict(cases=n, bad=bad)
 
 
+# ---------------------------------------------------------------- XSD 1.1 type alternatives (own and inherited attributes)
+ALT_SCHEMA = f'''<xs:schema {XS}>
+ <xs:complexType name="ItemT"><xs:simpleContent><xs:extension base="xs:string"><xs:attribute name="kind" type="xs:string"/></xs:extension></xs:simpleContent></xs:complexType>
+ <xs:complexType name="EN"><xs:simpleContent><xs:restriction base="ItemT"><xs:enumeration value="hello"/></xs:restriction></xs:simpleContent></xs:complexType>
+ <xs:complexType name="FR"><xs:simpleContent><xs:restriction base="ItemT"><xs:enumeration value="bonjour"/></xs:restriction></xs:simpleContent></xs:complexType>
+ <xs:complexType name="NUM"><xs:simpleContent><xs:restriction base="ItemT"><xs:pattern value="[0-9]+"/></xs:restriction></xs:simpleContent></xs:complexType>
+ <xs:element name="item" type="ItemT"><xs:alternative test="@kind = 'num'" type="NUM"/><xs:alternative test="@lang = 'fr'" type="FR"/><xs:alternative test="@lang = 'en'" type="EN"/></xs:element>
+ <xs:complexType name="Sec"><xs:choice minOccurs="0" maxOccurs="unbounded"><xs:element ref="item"/><xs:element name="section" type="Sec"/></xs:choice>
+   <xs:attribute name="lang" type="xs:string" inheritable="true"/></xs:complexType>
+ <xs:element name="doc" type="Sec"/></xs:schema>'''
+
+
+def alt_docs():
+    """(document, expected validity): items governed by their own kind, else by the nearest lang in scope (own attribute first, then inherited)"""
+    import itertools
+    def item(text, kind=None): return ('item', text, kind)
+    def render(node):
+        if node[0] == 'item': return f'<item{" kind=" + chr(34) + node[2] + chr(34) if node[2] else ""}>{node[1]}</item>'
+        tag, lang, kids = node
+        return f'<{tag}{" lang=" + chr(34) + lang + chr(34) if lang else ""}>' + ''.join(render(k) for k in kids) + f'</{tag}>'
+    def ok(node, lang):
+        if node[0] == 'item':
+            if node[2] == 'num': return node[1].isdigit()
+            return {'fr': node[1] == 'bonjour', 'en': node[1] == 'hello'}.get(lang, True)
+        lang = node[1] or lang
+        return all(ok(k, lang) for k in node[2])
+    texts = ['hello', 'bonjour', '12']
+    for l0, l1 in itertools.product([None, 'en', 'fr'], repeat=2):
+        for t1, t2 in itertools.product(texts, repeat=2):
+            for kind in (None, 'num'):
+                for order in range(3):
+                    sec = ('section', l1, [item(t1, kind)]); it = item(t2)
+                    kids = [[sec, it], [it, sec], [sec, it, ('section', None, [item(t2)])]][order]
+                    d = ('doc', l0, kids)
+                    yield render(d), ok(d, None)
+
+
+def eval_alt(args):
+    doc, exp = args
+    import xmlschema
+    s = _S.get('alt') or _S.setdefault('alt', xmlschema.XMLSchema11(ALT_SCHEMA))
+    try: got = s.is_valid(doc); got2 = not list(s.iter_errors(doc))
+    except Exception as e: got = got2 = f'EXC {type(e).__name__}: {e}'
+    return None if got == exp == got2 else dict(doc=doc, got=got, exp=exp)
+
+
+_S = {}
+
+
 def run(tier, seed, open_findings):
     allc = list(configs())
     sel, exhaustive = part(allc, tier, seed, 6)
@@ -142,11 +191,18 @@ def run(tier, seed, open_findings):
     sf = [dict(case=dict(doc=b['doc'], head_block=b['head_block'], m1_abstract=b['m1_abstract'], type_block=b['type_block'], ver=j[0]), observed=dict(valid=b['got']), required=dict(valid=b['exp'])) for r, j in zip(sres, sjobs) for b in r['bad']]
     out.append(result('C07.substitution_groups', f'{len(sjobs)} (class, head block, abstract member, type block) configurations x 12 instances', sum(r['cases'] for r in sres), sf, exhaustive=True,
                       samples=[dict(doc='<r><m2>...</m2></r>', head_block='substitution')]))
+    ajobs = list(alt_docs())
+    ares = [eval_alt(j) for j in ajobs]
+    out.append(result('C07.type_alternatives', f'{len(ajobs)} documents (XSD 1.1): items typed by the first alternative whose test holds - own attribute kind, else the nearest lang in scope (own or inherited through nested sections), '
+                      'every order of sections and items', len(ajobs), [dict(case=dict(alt=True, doc=r['doc'], exp=r['exp']), observed=dict(valid=r['got']), required=dict(valid=r['exp'])) for r in ares if r], exhaustive=True,
+                      samples=[dict(doc='<doc lang="en"><section lang="fr"><item>bonjour</item></section><item>hello</item></doc>')]))
     return out
 
 
 def replay(check_name, case):
     import xmlschema
+    if case.get('alt'):
+        r = eval_alt((case['doc'], case['exp'])); return dict(ok=r is None, observed=r, required='governing type = first alternative whose test holds')
     if check_name == 'C07.substitution_groups':
         s = subst_schema(case['ver'], case['head_block'], case['m1_abstract'], case['type_block'])
         return dict(ok=True, observed=dict(valid=s.is_valid(case['doc'])), required='re-run the check for the reference verdict')
